@@ -1,2 +1,1 @@
 #pragma once
-#include <initializer_list>
